@@ -135,6 +135,14 @@ def locs(vs):
     return clist('(%d, %d, %d, %d)' % (v['row'], v['col'], v['erow'], v['ecol']) for v in vs)
 
 
+def pstr(s):
+    """text -> Coq term of type str, spelled as 7 bytes per primitive integer (Base/Packed.v): Coq elaborates that an
+    order of magnitude faster than a list of byte literals"""
+    b = s.encode('utf-8', 'surrogateescape') if isinstance(s, str) else bytes(s)
+    words = [len(b)] + [int.from_bytes(b[i:i + 7].ljust(7, b'\0'), 'big') for i in range(0, len(b), 7)]
+    return '(packed [%s]%%uint63)' % ';'.join(map(str, words))
+
+
 def chunked(v, name, typ, rows, n=400):
     """long list literals overflow Coq's stack: define them in pieces"""
     parts = []
@@ -150,14 +158,14 @@ def coq_check(ctx, items, digs=(), covers=(), name='Cases_C08'):
        covers: [(case, file_index, nonblank_only, targets, shifts_used)]
     -> index lists of the failing cases: text_agrees, rows_agree, texts_agree over items; dig_text_agrees,
        dig_rows_agree, dig_texts_agree over digs; shifts_cover, rows_reach over covers"""
-    v = ['From Regal Require Import Check.C08Check.', 'Open Scope N_scope.']
+    v = ['From Coq Require Import Uint63.', 'From Regal Require Import Check.C08Check.', 'Open Scope N_scope.']
     defined, interned = {}, {}
 
     def orig(c, fi):
         k = (c['id'], fi)
         if k not in defined:
             defined[k] = 't_%d_%d' % k
-            v.append('Definition %s : str := %s.' % (defined[k], cstr(c['files'][fi]['text'])))
+            v.append('Definition %s : str := Eval vm_compute in %s.' % (defined[k], pstr(c['files'][fi]['text'])))
         return defined[k]
 
     def intern(prefix, typ, term):
@@ -169,14 +177,14 @@ def coq_check(ctx, items, digs=(), covers=(), name='Cases_C08'):
         return interned[(prefix, term)]
 
     def texts_of(embv):
-        return clist('(%d, %s)' % (x['row'], intern('x', 'str', cstr(x['text']))) for x in embv if x['has_text'] and x['row'] > 0)
+        return clist('(%d, %s)' % (x['row'], intern('x', 'str', pstr(x['text']))) for x in embv if x['has_text'] and x['row'] > 0)
     rows = []
     for (c, fi, emb, got, idv, embv) in items:
         rows.append('{| e_orig := %s; e_ops := %s; e_got := %s; e_id := %s; e_emb := %s; e_texts := %s |}' % (
-            orig(c, fi), coq_ops(emb), cstr(got), locs(idv), locs(embv), texts_of(embv)))
+            orig(c, fi), coq_ops(emb), pstr(got), locs(idv), locs(embv), texts_of(embv)))
     drows = []
     for (c, fi, emb, dg, idv, embv) in digs:
-        drows.append('{| d_orig := %s; d_ops := %s; d_len := %d; d_hash := %d; d_id := %s; d_emb := %s; d_texts := %s |}' % (
+        drows.append('{| d_orig := %s; d_ops := %s; d_len := %d; d_hash := %d%%uint63; d_id := %s; d_emb := %s; d_texts := %s |}' % (
             orig(c, fi), coq_ops(emb), dg['len'], dg['hash'], intern('L', 'list loc', locs(idv)), locs(embv), texts_of(embv)))
     crows = []
     for (c, fi, nonblank, targets, used) in covers:
@@ -198,7 +206,7 @@ def coq_check(ctx, items, digs=(), covers=(), name='Cases_C08'):
     if drows:
         c, fi, emb, dg, idv, embv = digs[0]
         v.append('Definition S1 := Eval vm_compute in failing dig_text_agrees 0 [{| d_orig := %s; d_ops := %s; d_len := %d; '
-                 'd_hash := %d; d_id := []; d_emb := []; d_texts := [] |}].' % (orig(c, fi), coq_ops(emb), dg['len'], dg['hash'] ^ 1))
+                 'd_hash := %d%%uint63; d_id := []; d_emb := []; d_texts := [] |}].' % (orig(c, fi), coq_ops(emb), dg['len'], dg['hash'] ^ 1))
         marks.append('S1')
     pert = [x for x in covers if x[4]]
     if pert:
